@@ -3,6 +3,7 @@
 package server
 
 import (
+	"runtime"
 	"strings"
 	"sync/atomic"
 
@@ -34,6 +35,7 @@ func (l *vfWatchLogger) Errorf(format string, v ...interface{}) {
 }
 
 type vfCluster struct {
+	stopHung    bool  // a Server.Stop() did not return
 	hwFallbacks int64 // followers that truncated to their HW because the leader could not be reached
 	ns     *gnatsd.Server
 	root   string
@@ -104,7 +106,18 @@ func (c *vfCluster) start(id string, seed bool) error {
 
 func (c *vfCluster) stop(id string) {
 	if s := c.srv[id]; s != nil {
-		s.Stop()
+		done := make(chan struct{})
+		go func() { s.Stop(); close(done) }()
+		select {
+		case <-done:
+		case <-time.After(60 * time.Second):
+			// keep a goroutine dump: a Stop that does not return is worth a look
+			buf := make([]byte, 8<<20)
+			n := runtime.Stack(buf, true)
+			os.WriteFile(filepath.Join(c.root, "stop-hangs-"+id+".txt"), buf[:n], 0o644)
+			fmt.Printf("HARNESS: Stop() of server %s did not return within 60s; goroutine dump in %s\n", id, c.root)
+			c.stopHung = true
+		}
 		c.srv[id] = nil
 	}
 }
@@ -142,5 +155,19 @@ func (c *vfCluster) close() {
 		c.stop(id)
 	}
 	c.ns.Shutdown()
-	os.RemoveAll(c.root)
+	if os.Getenv("VERIF_LEAKS") != "" {
+		time.Sleep(50 * time.Millisecond)
+		buf := make([]byte, 8<<20)
+		n := runtime.Stack(buf, true)
+		for _, g := range strings.Split(string(buf[:n]), "\n\n") {
+			if strings.Contains(g, "checkpointHWLoop") {
+				fmt.Println("LEAKED COMMIT LOG:\n" + g)
+			}
+		}
+	}
+	// The data directories stay until the driver removes the shard's scratch
+	// space: a server that is stopped while its FSM is still applying an
+	// operation can leave a commit log behind whose checkpoint loop panics the
+	// process once its directory is gone (the same race makes the repository's
+	// own suite flaky under load).
 }
